@@ -38,7 +38,7 @@ PROPS = {
         "streams": ["dec"],
         "timeout": 3000,
         "required_theorems": ["decode_no_panic", "decodeObject_no_panic", "decode_no_panic_versions", "decode_alloc",
-                              "decodeObject_alloc", "decode_alloc_partial", "C18_alloc_full_false", "dispatch_shape", "decode_never_out_of_fuel"],
+                              "decodeObject_alloc", "decode_alloc_partial", "C18_alloc_full_false", "dispatch_shape", "decode_never_out_of_fuel", "liftConv_total", "decode_no_panic_lifted"],
         "trusted": [
             "hand model Model/Enc.lean of the repaired decoder; every slice expression, `data[0]` in toVarint and (before the repair) every unchecked type assertion and make() is a panic branch; tied by stream `dec` (all truncations, sampled single/double-byte corruptions, arbitrary bytes: decoded object text / error / panic compared with the implementation)",
             "gob is a parameter assumed total, not un-reading input (GobRest) and allocation-bounded (GobAlloc)",
